@@ -166,6 +166,10 @@ def run_ops(c):
                     GM.solve_root = real_root
                 rec.update(evals=evals, root=(roots[-1] if roots else None))
             rec["H"] = float(ghe.bhe.b.H)
+            # the object's inputs after the operation: the year of hourly loads it was constructed with
+            hl = ghe.hourly_extraction_ground_loads
+            rec["loads_len"] = len(hl)
+            rec["loads_same"] = bool(len(hl) == len(ghe._verif_loads) and all(float(a) == b for a, b in zip(hl, ghe._verif_loads)))
             if len(ghe.hp_eft) > 0 and last_m is not None:
                 rec["stored"] = [max(ghe.hp_eft), min(ghe.hp_eft), len(ghe.hp_eft)]
                 fm = fresh_sim(rec["H"], last_m)
